@@ -251,7 +251,10 @@ class _OpcodeEncodable(Generic[_OpcodeT]):
 
         type_storage = cls._per_type_storage[cls._opcode_type]
 
-        opcode_byte = int.from_bytes(io.read(1), byteorder)
+        opcode_data = io.read(1)
+        if not opcode_data:
+            raise EOFError("unexpected end of data")
+        opcode_byte = int.from_bytes(opcode_data, byteorder)
         bytes_read = 1
         opcode_cls = type_storage.opcodes.get(opcode_byte)
 
